@@ -48,7 +48,9 @@ mutual
 inductive Tpl (E : Type) where
   | text (e : E)
   | elem (tag : String) (attrs : List (String × E)) (children : Tpls E)
-  | block (children : Tpls E)
+  /-- `<block>`; with `incl` the content of an `<include>`d file: it sees the data but none of the includer's scope variables, and it is
+  out of the binding map's reach whatever it reads -/
+  | block (incl : Bool) (children : Tpls E)
   /-- `wx:if` / `wx:elif` … chain -/
   | cond (branches : Branches E)
   /-- `wx:for` without `wx:key` -/
@@ -103,7 +105,7 @@ mutual
 def create (s : Sem E V T) (now : Nat) (D : V) (sc : List V) : Tpl E → Node V
   | .text e => .text now (s.str (s.eval e D sc))
   | .elem tag attrs ch => .elem now tag (evalAttrs s D sc attrs) (createL s now D sc ch)
-  | .block ch => .virt now (createL s now D sc ch)
+  | .block inc ch => .virt now (createL s now D (if inc then [] else sc) ch)
   | .cond bs =>
     let k := branchKey s D sc bs
     .ifn now k (createBr s now D sc bs k 1)
@@ -177,7 +179,7 @@ mutual
 def update (s : Sem E V T) (now : Nat) (D : V) (sc : List V) (U : T) (su : List T) : Tpl E → Node V → Node V
   | .text e, .text b old => .text b (if s.dirty e U su then s.str (s.eval e D sc) else old)
   | .elem _ attrs ch, .elem b tag old och => .elem b tag (updAttrs s D sc U su attrs old) (updateL s now D sc U su ch och)
-  | .block ch, .virt b och => .virt b (updateL s now D sc U su ch och)
+  | .block inc ch, .virt b och => .virt b (updateL s now D (if inc then [] else sc) U (if inc then [] else su) ch och)
   | .cond bs, .ifn b k och =>
     let k' := branchKey s D sc bs
     if k' = k then .ifn b k (updateBr s now D sc U su bs k 1 och)
@@ -223,7 +225,7 @@ mutual
 def bmUpdate (s : Sem E V T) (D : V) (sc : List V) (f : String) : Tpl E → Node V → Node V
   | .text e, .text b old => .text b (if s.reads e f then s.str (s.eval e D sc) else old)
   | .elem _ attrs ch, .elem b tag old och => .elem b tag (bmAttrs s D sc f attrs old) (bmUpdateL s D sc f ch och)
-  | .block ch, .virt b och => .virt b (bmUpdateL s D sc f ch och)
+  | .block inc ch, .virt b och => .virt b (bmUpdateL s D sc f ch och)
   | _, n => n
 def bmUpdateL (s : Sem E V T) (D : V) (sc : List V) (f : String) : Tpls E → Nodes V → Nodes V
   | .cons t r, .cons n ns => .cons (bmUpdate s D sc f t n) (bmUpdateL s D sc f r ns)
@@ -235,7 +237,7 @@ mutual
 def occurs (s : Sem E V T) (f : String) : Tpl E → Bool
   | .text e => s.reads e f
   | .elem _ attrs ch => attrs.any (fun a => s.reads a.2 f) || occursL s f ch
-  | .block ch => occursL s f ch
+  | .block inc ch => occursL s f ch
   | .cond bs => occursBr s f bs
   | .loop l body => s.reads l f || occursL s f body
   | .loopK l _ body => s.reads l f || occursL s f body
@@ -252,7 +254,7 @@ mutual
 def dynOccurs (s : Sem E V T) (f : String) : Tpl E → Bool
   | .text _ => false
   | .elem _ _ ch => dynOccursL s f ch
-  | .block ch => dynOccursL s f ch
+  | .block inc ch => inc || dynOccursL s f ch
   | .cond bs => occursBr s f bs
   | .loop l body => s.reads l f || occursL s f body
   | .loopK l _ body => s.reads l f || occursL s f body
@@ -261,8 +263,25 @@ def dynOccursL (s : Sem E V T) (f : String) : Tpls E → Bool
   | .cons t r => dynOccurs s f t || dynOccursL s f r
 end
 
-/-- the fields the generated binding map offers: read somewhere, and nowhere out of reach -/
-def advertised (s : Sem E V T) (f : String) (t : Tpl E) : Bool := occurs s f t && !dynOccurs s f t
+/-! is there an `<include>` anywhere (it switches the whole binding map off) -/
+mutual
+def hasIncl : Tpl E → Bool
+  | .text _ => false
+  | .elem _ _ ch => hasInclL ch
+  | .block inc ch => inc || hasInclL ch
+  | .cond bs => hasInclBr bs
+  | .loop _ body => hasInclL body
+  | .loopK _ _ body => hasInclL body
+def hasInclL : Tpls E → Bool
+  | .nil => false
+  | .cons t r => hasIncl t || hasInclL r
+def hasInclBr : Branches E → Bool
+  | .last _ els => hasInclL els
+  | .cons _ body r => hasInclL body || hasInclBr r
+end
+
+/-- the fields the generated binding map offers: read somewhere, nowhere out of reach, and no `<include>` in the template -/
+def advertised (s : Sem E V T) (f : String) (t : Tpl E) : Bool := occurs s f t && !dynOccurs s f t && !hasIncl t
 
 /-! ### "this node tree is a rendering of the template under these data" (whenever its nodes were born) -/
 
@@ -275,7 +294,7 @@ mutual
 def renders (s : Sem E V T) (D : V) (sc : List V) : Tpl E → Node V → Prop
   | .text e, .text _ str => str = s.str (s.eval e D sc)
   | .elem tag attrs ch, .elem _ tag' vs nch => tag' = tag ∧ vs = evalAttrs s D sc attrs ∧ rendersL s D sc ch nch
-  | .block ch, .virt _ nch => rendersL s D sc ch nch
+  | .block inc ch, .virt _ nch => rendersL s D (if inc then [] else sc) ch nch
   | .cond bs, .ifn _ k nch => k = branchKey s D sc bs ∧ rendersBr s D sc bs k 1 nch
   | .loop l body, .forn _ items =>
     rendersItems (fun a x nch => rendersL s D (sc ++ [a, x]) body nch) (s.items (s.eval l D sc)) items
